@@ -759,6 +759,59 @@ def extract_choose(mod):
 
 
 
+def extract_compat_ids(mod):
+    """`get_compatible_bond_descriptor_ids`: `for i, other in enumerate(bds): if bond is None or bond.is_compatible(other): acc.append(i)`"""
+    fn = _find_func(mod.body, "get_compatible_bond_descriptor_ids")
+    params = [a.arg for a in fn.args.args]
+    if len(params) != 2:
+        raise Unsupported("get_compatible_bond_descriptor_ids: two parameters expected")
+    bds, bond = params
+    body = [st for st in fn.body if not (isinstance(st, ast.Expr) and isinstance(st.value, ast.Constant))]
+    if len(body) != 3:
+        raise Unsupported("get_compatible_bond_descriptor_ids: `acc = []`, one for loop, one return expected")
+    init, loop, ret = body
+    if not (isinstance(init, ast.Assign) and len(init.targets) == 1 and isinstance(init.targets[0], ast.Name) and isinstance(init.value, ast.List) and not init.value.elts):
+        raise Unsupported("empty accumulator list expected")
+    acc = init.targets[0].id
+    if not (isinstance(loop, ast.For) and not loop.orelse and isinstance(loop.iter, ast.Call) and isinstance(loop.iter.func, ast.Name) and loop.iter.func.id == "enumerate"
+            and len(loop.iter.args) == 1 and isinstance(loop.iter.args[0], ast.Name) and loop.iter.args[0].id == bds and not loop.iter.keywords
+            and isinstance(loop.target, ast.Tuple) and len(loop.target.elts) == 2 and all(isinstance(x, ast.Name) for x in loop.target.elts)):
+        raise Unsupported("`for i, other in enumerate(bond_descriptors)` expected")
+    i, other = (x.id for x in loop.target.elts)
+    if not (len(loop.body) == 1 and isinstance(loop.body[0], ast.If) and not loop.body[0].orelse and len(loop.body[0].body) == 1):
+        raise Unsupported("one `if` with one statement expected in the loop")
+    test, app = loop.body[0].test, loop.body[0].body[0]
+    if not (isinstance(app, ast.Expr) and isinstance(app.value, ast.Call) and isinstance(app.value.func, ast.Attribute) and app.value.func.attr == "append"
+            and isinstance(app.value.func.value, ast.Name) and app.value.func.value.id == acc and len(app.value.args) == 1
+            and isinstance(app.value.args[0], ast.Name) and app.value.args[0].id == i):
+        raise Unsupported("`acc.append(i)` expected")
+
+    def cond(e):
+        if isinstance(e, ast.BoolOp):
+            return "(" + (" || " if isinstance(e.op, ast.Or) else " && ").join(cond(v) for v in e.values) + ")"
+        if isinstance(e, ast.Compare) and len(e.ops) == 1 and isinstance(e.ops[0], (ast.Is, ast.IsNot)) and isinstance(e.left, ast.Name) and e.left.id == bond \
+                and isinstance(e.comparators[0], ast.Constant) and e.comparators[0].value is None:
+            return "b.isNone" if isinstance(e.ops[0], ast.Is) else "b.isSome"
+        if isinstance(e, ast.Call) and isinstance(e.func, ast.Attribute) and e.func.attr == "is_compatible" and len(e.args) == 1 and not e.keywords \
+                and isinstance(e.func.value, ast.Name) and isinstance(e.args[0], ast.Name) and {e.func.value.id, e.args[0].id} == {bond, other}:
+            if e.func.value.id == bond:
+                return "(match b with | some bond => isCompatible bond p.1 | none => false)"
+            return "(match b with | some bond => isCompatible p.1 bond | none => false)"
+        raise Unsupported("condition of get_compatible_bond_descriptor_ids: " + ast.dump(e)[:80])
+    c = cond(test)
+    r = ret.value if isinstance(ret, ast.Return) else None
+    ok_ret = isinstance(r, ast.Name) and r.id == acc
+    if not ok_ret:
+        cc = _np_call(r, ("asarray", "array")) if r is not None else None
+        ok_ret = bool(cc) and isinstance(cc[1][0], ast.Name) and cc[1][0].id == acc
+    if not ok_ret:
+        raise Unsupported("return of the accumulated index list expected")
+    return ("/-- `get_compatible_bond_descriptor_ids(bond_descriptors, bond)` (core.py): the for loop over `enumerate(bond_descriptors)` appending the index\n"
+            "where the condition holds, as a left fold with append -/\n"
+            "def compatIdsX (bds : List Desc) (b : Option Desc) : List Nat :=\n"
+            f"  bds.zipIdx.foldl (fun acc (p : Desc × Nat) => if {c} then acc ++ [p.2] else acc) []\n")
+
+
 # ----------------------------------------------------------------------------------------------
 # the two comparisons that end the loops of generation: the grow loop of a stochastic object and the ensemble loop of a system
 
@@ -998,7 +1051,7 @@ PARTS = [
     ("Masses", "masses", extract_atomic_masses),
     ("FFCache", "ffcache", lambda: extract_ff_cache(_parse("forcefield_helper.py"))),
     ("FFTables", "fftables", extract_ff_tables),
-    ("Choose", "choose", lambda: extract_choose(_parse("core.py"))),
+    ("Choose", "choose", lambda: extract_choose(_parse("core.py")) + "\n" + extract_compat_ids(_parse("core.py"))),
     ("Loops", "loops", extract_loops),
     ("Mixture", "mixture", lambda: extract_mixture(_parse("mixture.py"))),
 ]
@@ -1023,7 +1076,7 @@ def generate(write_pinned=False):
                 os.makedirs(PINNED_DIR, exist_ok=True)
                 with open(os.path.join(PINNED_DIR, name + ".lean"), "w") as fh:
                     fh.write(text)
-        files[mod] = ("import GBS.Model.Mixture\n" if name == "mixture" else "") + (HEADER % (name + (" — STALE: text of the last good tree" if name in stale else ""))) + text + "\nend GBS\n"
+        files[mod] = ("import GBS.Model.Mixture\n" if name == "mixture" else "import GBS.Extracted.Bond\n" if name == "choose" else "") + (HEADER % (name + (" — STALE: text of the last good tree" if name in stale else ""))) + text + "\nend GBS\n"
     return files, stale
 
 
